@@ -15,6 +15,8 @@ import traceback
 
 HERE = os.path.dirname(os.path.abspath(__file__))
 sys.path.insert(0, HERE)
+import warnings
+warnings.simplefilter("ignore")
 import common  # noqa: E402
 from common import Broken, Failure, Outcome  # noqa: E402
 
